@@ -1,4 +1,5 @@
 import PyaModel.Proofs.C15
+import PyaModel.Generated.ClassTable
 /-!
 # Props/C15 — type-variable solutions satisfy the bounds they were solved from
 
@@ -356,5 +357,46 @@ example : (solve leH joinH exBounds2).isOk = false ∧ specOk leH exBounds2 = fa
 example : lastOneOf exBounds2 = some [tInt, tStr] := rfl
 example : ∀ cs ∈ oneOfs exBounds2, ∀ c ∈ cs, SH c := by decide
 example : ∃ a, SH a := ⟨tObj, by decide⟩
+
+
+/-! ## the same over the live class table (`ca liveTable false`, `unite`) -/
+set_option linter.unusedSimpArgs false
+
+/-- the class-level facts about `object`(0), `int`(1), `bool`(2), `str`(5) the witnesses below use; an
+obligation over the table regenerated from the live tree -/
+theorem nomFacts :
+    liveTable.nominal false 0 1 = true ∧ liveTable.nominal false 0 2 = true ∧ liveTable.nominal false 1 2 = true
+    ∧ liveTable.nominal false 0 0 = true ∧ liveTable.nominal false 1 1 = true ∧ liveTable.nominal false 2 2 = true
+    ∧ liveTable.nominal false 1 0 = false ∧ liveTable.nominal false 2 0 = false ∧ liveTable.nominal false 2 1 = false
+    ∧ liveTable.nominal false 5 5 = true ∧ liveTable.nominal false 1 5 = false ∧ liveTable.nominal false 5 1 = false
+    ∧ liveTable.nominal false 0 5 = true ∧ liveTable.nominal false 5 0 = false
+    ∧ liveTable.nominal false 5 2 = false ∧ liveTable.nominal false 2 5 = false := by decide
+
+/-- `twoUppers` with the modelled `can_assign` over the live class table: `int >= T, str >= T` is solved to
+`int | str`, which `int` does not accept -/
+theorem twoUppers_witness_ca : upperHolds (leCa liveTable) joinU [.upper (.typed 1), .upper (.typed 5)] = false := by
+  obtain ⟨h1, h2, h3, h4, h5, h6, h7, h8, h9, h10, h11, h12, h13, h14, h15, h16⟩ := nomFacts
+  simp [upperHolds, solve, run, finish, pick, choose, satUpper, step, uppers, isAny, leCa, joinU, unite, dedup, dictMem,
+    flatten1, ca, caAllR, caAnyL, typedCA, typOf, Ty.beq, Ty.hashEq, h1, h2, h3, h4, h5, h6, h7, h8, h9, h10, h11, h12, h13, h14, h15, h16]
+
+/-- order dependence with the modelled `can_assign` over the live class table:
+`bool >= T, int >= T, str >= T, str <= T` is accepted, `int >= T, str >= T, bool >= T, str <= T` is an error -/
+theorem order_witness_ca :
+    (solveCa liveTable [.upper (.typed 2), .upper (.typed 1), .upper (.typed 5), .lower (.typed 5)]).isOk = true ∧
+    (solveCa liveTable [.upper (.typed 1), .upper (.typed 5), .upper (.typed 2), .lower (.typed 5)]).isOk = false := by
+  obtain ⟨h1, h2, h3, h4, h5, h6, h7, h8, h9, h10, h11, h12, h13, h14, h15, h16⟩ := nomFacts
+  simp [solveCa, Result.isOk, solve, run, finish, pick, choose, step, isAny, leCa, joinU, unite, dedup, dictMem,
+    flatten1, ca, caAllR, caAnyL, typedCA, typOf, Ty.beq, Ty.hashEq, h1, h2, h3, h4, h5, h6, h7, h8, h9, h10, h11, h12, h13, h14, h15, h16]
+
+/-- the hypotheses of the `solveCa_*_partial` theorems are satisfiable over the live class table:
+`bool <= T, Any <= T, int <= T, object >= T, int >= T` -/
+def exBoundsCa : List Bound := [.lower (.typed 2), .lower .any, .lower (.typed 1), .upper (.typed 0), .upper (.typed 1)]
+example : D15_nonTransitive (leCa liveTable) joinU exBoundsCa = false ∧ D15_twoUppers (leCa liveTable) exBoundsCa = false
+    ∧ D15_anyUpper exBoundsCa = false ∧ D15_oneOfUpper exBoundsCa = false ∧ multiOneOf exBoundsCa = false
+    ∧ (solveCa liveTable exBoundsCa).isOk = true := by
+  obtain ⟨h1, h2, h3, h4, h5, h6, h7, h8, h9, h10, h11, h12, h13, h14, h15, h16⟩ := nomFacts
+  simp [exBoundsCa, D15_nonTransitive, D15_twoUppers, D15_anyUpper, D15_oneOfUpper, multiOneOf, lawsOn, reach, boundVals, trail,
+    solveCa, Result.isOk, solve, run, finish, pick, choose, step, lowers, uppers, oneOfs, isAny, leCa, joinU, unite, dedup, dictMem,
+    flatten1, ca, caAllR, caAnyL, typedCA, typOf, Ty.beq, Ty.hashEq, h1, h2, h3, h4, h5, h6, h7, h8, h9, h10, h11, h12, h13, h14, h15, h16]
 
 end Pya.C15
